@@ -27,41 +27,6 @@ theorem queue_size_invariant {q : Queue} (h : QInv q) :
     Pow2Mul q.initCap q.nodes.length ∧ (q.nodes.length = q.initCap ∨ q.nodes.length / 2 < q.cnt) :=
   ⟨h.pow, h.size⟩
 
-inductive QOp where
-  | add (j : Job)
-  | rem
-deriving Repr, DecidableEq
-
-/-- FIFO specification: state = list of queued jobs, output = what `Remove` returned -/
-def specStep (l : List Job) : QOp → List Job × Option Job
-  | .add j => (l ++ [j], none)
-  | .rem => match l with
-    | [] => ([], none)
-    | x :: xs => (xs, some x)
-
-def implStep (q : Queue) : QOp → Option (Queue × Option Job)
-  | .add j => match add q j with
-    | some (q', true) => some (q', none)
-    | _ => none       -- panic, or refused (cannot happen on an open queue)
-  | .rem => remove q
-
-def specRun (l : List Job) : List QOp → List Job × List (Option Job)
-  | [] => (l, [])
-  | op :: ops =>
-    let (l', o) := specStep l op
-    let (l'', os) := specRun l' ops
-    (l'', o :: os)
-
-def implRun (q : Queue) : List QOp → Option (Queue × List (Option Job))
-  | [] => some (q, [])
-  | op :: ops =>
-    match implStep q op with
-    | none => none
-    | some (q', o) =>
-      match implRun q' ops with
-      | none => none
-      | some (q'', os) => some (q'', o :: os)
-
 /-- **FIFO refinement, index safety**: every sequence of `Add`/`Remove` calls on an open queue runs
 without a Go panic (no slice or index out of range, no division by zero — in particular inside
 `resize`), keeps the invariant, and returns exactly what a FIFO list returns. -/
@@ -102,9 +67,6 @@ example : QInv (newQueue 2) := inv_newQueue 2 (by decide)
 /-- index safety under concurrency: no queue operation panics in any reachable state -/
 theorem no_panic {nW c : Nat} (hc : 0 < c) {s : Sys} (h : Reach nW c s) : s.panicked = false :=
   (reach_inv hc h).noPanic
-
-theorem count_le_one_of_mem {l : List Job} {j : Job} (h : l.count j ≤ 1) (hm : j ∈ l) : l.count j = 1 := by
-  have := List.count_pos_iff.mpr hm; omega
 
 /-- **`no_loss`**: while the queue is open, every job whose `Submit` returned nil and that has not yet
 returned success is in exactly one place: queued once, or owned by exactly one worker (dequeued and
@@ -169,18 +131,6 @@ theorem no_lost_wakeup {nW c : Nat} (hc : 0 < c) {s : Sys} (h : Reach nW c s) (h
     (hq : abs s.q ≠ []) (hws : s.ws ≠ []) : ∃ w ∈ s.ws, w ≠ W.parked ∧ w ≠ W.exited :=
   (reach_inv hc h).wakeup hopen hq hws
 
-theorem exists_parked (l : List W) (h : ¬ l.all (fun x => x != W.parked) = true) :
-    ∃ p : Nat, l[p]? = some W.parked := by
-  induction l with
-  | nil => simp at h
-  | cons y ys ih =>
-    by_cases hy : y = W.parked
-    · exact ⟨0, by simp [hy]⟩
-    · have : ¬ ys.all (fun x => x != W.parked) = true := by
-        intro ha; apply h; simp [List.all_cons, hy, ha]
-      obtain ⟨p, hp⟩ := ih this
-      exact ⟨p + 1, by simpa using hp⟩
-
 /-- … and such a worker always has an enabled step (so a queued job can always make progress; that the
 step is eventually taken is scheduler fairness). -/
 theorem active_worker_enabled (s : Sys) (i : Nat) (st : W) (hi : s.ws[i]? = some st)
@@ -225,197 +175,6 @@ theorem active_worker_enabled (s : Sys) (i : Nat) (st : W) (hi : s.ws[i]? = some
   | exited => exact absurd rfl h2
 
 /-! ## FIFO progress -/
-
-theorem resize_closed {q q' : Queue} {n : Nat} (h : resize q n = some q') :
-    q'.closed = q.closed ∧ q'.initCap = q.initCap := by
-  simp only [resize] at h
-  split at h
-  · cases h
-  · split at h
-    · cases h
-    · cases h; exact ⟨rfl, rfl⟩
-
-theorem add_closed_flag {q q' : Queue} {j : Job} {b : Bool} (h : add q j = some (q', b)) : q'.closed = q.closed := by
-  simp only [add] at h
-  split at h
-  · cases h; rfl
-  · split at h
-    · cases h
-    · rename_i q1 hq1
-      split at h
-      · cases h
-        split at hq1
-        · exact (resize_closed hq1).1
-        · cases hq1; rfl
-      · cases h
-
-theorem remove_closed_flag {q q' : Queue} {o : Option Job} (h : remove q = some (q', o)) : q'.closed = q.closed := by
-  simp only [remove] at h
-  split at h
-  · cases h; rfl
-  · split at h
-    · cases h
-    · cases h
-    · split at h
-      · cases h
-      · split at h
-        · split at h
-          · cases h
-          · rename_i q2 hq2
-            cases h
-            exact (resize_closed hq2).1
-        · cases h; rfl
-
-/-- `closed` is monotone -/
-theorem next_closed_mono {s s' : Sys} {l : Label} (h : next s l = some s') (hc : s.q.closed = true) :
-    s'.q.closed = true := by
-  cases l with
-  | submit pick =>
-    simp only [next] at h
-    split at h
-    · cases h; exact hc
-    · cases h; exact hc
-    · rename_i q' hadd
-      split at h
-      · cases h
-      · cases h; simp only; rw [add_closed_flag hadd]; exact hc
-  | wait w =>
-    simp only [next, hc, if_true] at h
-    split at h
-    · cases h; exact hc
-    · cases h
-  | remove w =>
-    simp only [next] at h
-    split at h
-    · split at h
-      · cases h; exact hc
-      · rename_i q' hrm; cases h; simp only; rw [remove_closed_flag hrm]; exact hc
-      · rename_i q' j hrm; cases h; simp only; rw [remove_closed_flag hrm]; exact hc
-    · cases h
-  | check w =>
-    simp only [next] at h
-    split at h
-    · cases h; exact hc
-    · cases h
-  | start w =>
-    simp only [next] at h
-    split at h
-    · cases h; exact hc
-    · cases h
-  | finish w ok =>
-    simp only [next] at h
-    split at h
-    · split at h <;> (cases h; exact hc)
-    · cases h
-  | readd w pick =>
-    simp only [next] at h
-    split at h
-    · split at h
-      · cases h; exact hc
-      · cases h; exact hc
-      · rename_i q' hadd
-        split at h
-        · cases h
-        · cases h; simp only; rw [add_closed_flag hadd]; exact hc
-    · cases h
-  | close => simp only [next] at h; cases h; simp [close]
-
-theorem run_open {s s' : Sys} (ls : List Label) (h : run s ls = some s') (ho : s'.q.closed = false) :
-    s.q.closed = false := by
-  induction ls generalizing s with
-  | nil => simp [run] at h; subst h; exact ho
-  | cons l ls ih =>
-    simp only [run] at h
-    split at h
-    · cases h
-    · rename_i s1 hs1
-      have h1 := ih h
-      cases hc : s.q.closed with
-      | false => rfl
-      | true => rw [next_closed_mono hs1 hc] at h1; cases h1
-
-/-- what one step does to the queue contents and the dequeue counter, while the queue stays open -/
-theorem fifo_step {s s' : Sys} {l : Label} (hi : SInv s) (h : next s l = some s') (ho : s'.q.closed = false) :
-    (s'.deqs = s.deqs ∧ ∃ added, abs s'.q = abs s.q ++ added) ∨
-    (s'.deqs = s.deqs + 1 ∧ ∃ j, abs s.q = j :: abs s'.q) := by
-  have hso : s.q.closed = false := by
-    cases hc : s.q.closed with
-    | false => rfl
-    | true => rw [next_closed_mono h hc] at ho; cases ho
-  have hq := hi.qOpen hso
-  cases l with
-  | submit pick =>
-    simp only [next] at h
-    obtain ⟨q', ha, _, habs, _⟩ := add_open hq s.nextId
-    rw [ha] at h
-    simp only at h
-    split at h
-    · cases h
-    · cases h; exact Or.inl ⟨rfl, [s.nextId], habs⟩
-  | wait w =>
-    simp only [next] at h
-    split at h
-    · split at h
-      · cases h; exact Or.inl ⟨rfl, [], by simp⟩
-      · split at h <;> (cases h; exact Or.inl ⟨rfl, [], by simp⟩)
-    · cases h
-  | remove w =>
-    simp only [next] at h
-    split at h
-    · cases habs : abs s.q with
-      | nil =>
-        have h0 : s.q.cnt = 0 := by have := abs_length hq; rw [habs] at this; simpa using this.symm
-        rw [remove_empty _ h0] at h
-        simp only at h
-        cases h
-        exact Or.inl ⟨rfl, [], by simp [habs]⟩
-      | cons j rest =>
-        obtain ⟨q', h1, _, h3, _⟩ := remove_spec s.q hq j rest habs
-        rw [h1] at h
-        simp only at h
-        cases h
-        exact Or.inr ⟨rfl, j, by simp [h3]⟩
-    · cases h
-  | check w =>
-    simp only [next] at h
-    split at h
-    · cases h; exact Or.inl ⟨rfl, [], by simp⟩
-    · cases h
-  | start w =>
-    simp only [next] at h
-    split at h
-    · cases h; exact Or.inl ⟨rfl, [], by simp⟩
-    · cases h
-  | finish w ok =>
-    simp only [next] at h
-    split at h
-    · split at h <;> (cases h; exact Or.inl ⟨rfl, [], by simp⟩)
-    · cases h
-  | readd w pick =>
-    simp only [next] at h
-    split at h
-    · rename_i j _
-      obtain ⟨q', ha, _, habs, _⟩ := add_open hq j
-      rw [ha] at h
-      simp only at h
-      split at h
-      · cases h
-      · cases h; exact Or.inl ⟨rfl, [j], habs⟩
-    · cases h
-  | close => simp only [next] at h; cases h; simp [close] at ho
-
-theorem run_deqs_le {s s' : Sys} (ls : List Label) (hi : SInv s) (h : run s ls = some s')
-    (ho : s'.q.closed = false) : s.deqs ≤ s'.deqs := by
-  induction ls generalizing s with
-  | nil => simp [run] at h; subst h; exact Nat.le_refl _
-  | cons l ls ih =>
-    simp only [run] at h
-    split at h
-    · cases h
-    · rename_i s1 hs1
-      have h1 := ih (inv_step hi hs1) h
-      have ho1 := run_open ls h ho
-      rcases fifo_step hi hs1 ho1 with ⟨hd, _⟩ | ⟨hd, _⟩ <;> omega
 
 /-- **`fifo_progress`**: if job `j` is queued behind `pre` (so at position `|pre|`), then along *any*
 run that leaves the queue open, after `k ≤ |pre|` further successful dequeues `j` is at position
@@ -481,12 +240,6 @@ theorem retry_requeues {nW c : Nat} (hc : 0 < c) {s s' : Sys} (h : Reach nW c s)
 shrinks again, job 0 fails once and is re-queued behind job 4; `Close` arrives while job 4 runs and job 0
 is still queued: job 4 finishes (it was dequeued before `Close`), job 0 is discarded with the queue
 ("Jobs will be lost after closing"), the late `Submit` (job 5) is refused, both workers exit. -/
-def exampleRun : List Label :=
-  [.wait 0, .wait 1, .submit 0, .remove 0, .start 0, .submit 1, .remove 1, .start 1, .submit 0, .submit 0,
-   .submit 0, .finish 0 false, .readd 0 0, .finish 1 true, .wait 1, .remove 1, .start 1, .wait 0, .remove 0,
-   .start 0, .finish 1 true, .finish 0 true, .wait 0, .remove 0, .start 0, .close, .submit 0, .finish 0 true,
-   .wait 0, .check 0, .wait 1, .check 1]
-
 example :
     ∃ s, run (init 2 2) exampleRun = some s ∧ Reach 2 2 s ∧
       s.runs = [(4, true), (3, true), (2, true), (1, true), (0, false)] ∧ s.rejected = [5] ∧
